@@ -629,7 +629,10 @@ def _spec_implies(self, e, fr):
     a = self.run.truth(self.ev(e.args[0], fr))
     if a is False:
         return True
-    b = self.run.truth(self.ev_guarded(e.args[1], fr, a))
+    try:
+        b = self.run.truth(self.ev_guarded(e.args[1], fr, a))
+    except X.PyRaise:
+        b = False       # the consequent is not even defined here (e.g. None compared): the clause then demands "not a"
     return IMPLIES(a, b)
 
 
